@@ -1070,4 +1070,87 @@ m('c04-one-more-step', 'C04', 'break', CD, SV, "num_steps < desired_num_steps", 
 m('c04-twin-rename-cursor', 'C04', 'neutral', CD, SV, "i = buf_size", "i = buf_size\ncursor_start = i")
 m('c04-twin-len', 'C04', 'neutral', CD, SV, "buf_size = buf.shape[0]", "buf_size = len(buf)")
 
+# ---------------------------------------------------------------- C15
+PBC = 'padded_batch_client_datasets'
+BS = 'buffered_shuffle'
+m('c15-no-preproc-check', 'C15', 'break', CD, PBC,
+  "if preprocessor is None:\n  preprocessor = dataset.preprocessor\nelif dataset.preprocessor is not preprocessor:\n  raise ValueError(f'client_datasets should have the identical Preprocessor object, got {preprocessor} vs {dataset.preprocessor}')",
+  "if preprocessor is None:\n  preprocessor = dataset.preprocessor", expect='R-ERR')
+m('c15-features-check-late', 'C15', 'break', CD, 'buffered_shuffle_batch_client_datasets.gen_items',
+  "if features is None:\n  features = set(dataset.raw_examples)\nelif features != set(dataset.raw_examples):\n  raise ValueError(f'client_datasets should have identical features, got {features} vs {list(dataset.raw_examples)}')",
+  "if features is None:\n  features = set(dataset.raw_examples)", expect='R-ERR')
+m('c15-shuffle-drops-head', 'C15', 'break', CD, BS, "r, buf[0] = (buf[0], i)", "r, buf[0] = (i, i)", expect='R-CONSERVE')
+m('c15-shuffle-overwrite', 'C15', 'break', CD, BS, "buf[swap], buf[0] = (buf[0], buf[swap])", "buf[swap] = buf[0]",
+  expect='R-CONSERVE')
+m('c15-shuffle-yield-twice', 'C15', 'break', CD, BS, "yield r", "yield r\nif swap == 0:\n  yield r", expect='R-CONSERVE')
+m('c15-shuffle-skip-yield', 'C15', 'break', CD, BS, "yield r", "if swap != 0:\n  yield r", expect='R-CONSERVE')
+m('c15-shuffle-no-tail', 'C15', 'break', CD, BS, "for i in buf:\n  yield i", "pass", expect='R-CONSERVE.tail')
+m('c15-shuffle-tail-skips', 'C15', 'break', CD, BS, "for i in buf:\n  yield i", "for i in buf[1:]:\n  yield i",
+  expect='R-CONSERVE.tail')
+m('c15-shuffle-global-rng', 'C15', 'break', CD, BS, "swap = rng.randint(buffer_size)", "swap = np.random.randint(buffer_size)",
+  expect='R-CONSERVE.rng')
+m('c15-shuffle-new-iter', 'C15', 'break', CD, BS, "buf = list(itertools.islice(it, buffer_size))",
+  "buf = list(itertools.islice(iter(source), buffer_size))", expect='R-CONSERVE.fill')
+m('c15-multi-bufsize-drift', 'C15', 'break', CD, PBC, "buf_size += size - start", "buf_size += size", expect='R-CONSERVE.pairs')
+m('c15-multi-clear-no-reset', 'C15', 'break', CD, PBC, "buf_size = 0", "pass", occurrence=1, expect='R-CONSERVE.pairs')
+m('c15-multi-gap', 'C15', 'break', CD, PBC, "start += hparams.batch_size", "start += hparams.batch_size + 1",
+  expect='R-CONSERVE.contiguous')
+m('c15-multi-tail-dropped', 'C15', 'break', CD, PBC,
+  "if start < size:\n  buf.append(slice_examples(examples, slice(start, size)))\n  buf_size += size - start", "pass",
+  expect='R-CONSERVE')
+m('c15-multi-no-final-flush', 'C15', 'break', CD, PBC,
+  "if buf:\n  final_examples = preprocessor(concat_examples(buf))\n  final_batch_size = _pick_final_batch_size(buf_size, hparams.batch_size, hparams.num_batch_size_buckets)\n  yield pad_examples(final_examples, final_batch_size)",
+  "pass", expect='R-CONSERVE.tail')
+m('c15-batcher-no-tail', 'C15', 'break', CD, 'buffered_shuffle_batch_client_datasets',
+  "if buf:\n  yield preprocessor(concat_examples([slice_examples(e, slice(i, i + 1)) for e, i in buf]))", "pass",
+  expect='R-CONSERVE.batches')
+m('c15-items-skip-first', 'C15', 'break', CD, 'buffered_shuffle_batch_client_datasets.gen_items',
+  "for i in range(len(dataset)):\n  yield (dataset.raw_examples, i)", "for i in range(1, len(dataset)):\n  yield (dataset.raw_examples, i)",
+  expect='R-CONSERVE.items')
+m('c15-replay-no-record', 'C15', 'break', FD, 'RepeatableIterator.__next__', "if self._first_pass:\n  self._buf.append(value)", "pass",
+  expect='R-REPLAY')
+m('c15-replay-always-record', 'C15', 'break', FD, 'RepeatableIterator.__next__', "if self._first_pass:\n  self._buf.append(value)",
+  "self._buf.append(value)", expect='R-REPLAY')
+m('c15-replay-no-reseat', 'C15', 'break', FD, 'RepeatableIterator.__next__', "self._iter = iter(self._buf)", "pass",
+  expect='R-REPLAY')
+m('c15-replay-swallow-stop', 'C15', 'break', FD, 'RepeatableIterator.__next__', "raise", "return None", expect='R-REPLAY')
+m('c15-replay-container-copy-flag', 'C15', 'break', FD, 'RepeatableIterator.__init__', "self._first_pass = False",
+  "self._first_pass = True", expect='R-REPLAY')
+m('c15-twin-yield-from', 'C15', 'neutral', CD, BS, "for i in buf:\n  yield i", "yield from buf")
+m('c15-twin-swap-order', 'C15', 'neutral', CD, BS, "buf[swap], buf[0] = (buf[0], buf[swap])", "buf[0], buf[swap] = (buf[swap], buf[0])")
+
+# ---------------------------------------------------------------- C18
+SR = 'structured_rotation'
+ISR = 'inverse_structured_rotation'
+m('c18-scale-sqrt-size', 'C18', 'break', WH, SR,
+  "return (walsh_hadamard_transform(w * rademacher) / jnp.sqrt(d), jnp.array(x.shape))",
+  "return (walsh_hadamard_transform(w * rademacher) / jnp.sqrt(x.size), jnp.array(x.shape))", expect='R-SIB.rotation')
+m('c18-scale-d', 'C18', 'break', WH, SR,
+  "return (walsh_hadamard_transform(w * rademacher) / jnp.sqrt(d), jnp.array(x.shape))",
+  "return (walsh_hadamard_transform(w * rademacher) / d, jnp.array(x.shape))", expect='R-SIB.rotation')
+m('c18-signs-wrong-shape', 'C18', 'break', WH, SR, "rademacher = jax.random.rademacher(rng, w.shape)",
+  "rademacher = jax.random.rademacher(rng, x_flat.shape)", expect='R-SIB.rotation')
+m('c18-inverse-sign-first', 'C18', 'break', WH, ISR, "w = walsh_hadamard_transform(x) * rademacher / jnp.sqrt(x.size)",
+  "w = walsh_hadamard_transform(x * rademacher) / jnp.sqrt(x.size)", expect='R-SIB.rotation')
+m('c18-inverse-no-sign', 'C18', 'break', WH, ISR, "w = walsh_hadamard_transform(x) * rademacher / jnp.sqrt(x.size)",
+  "w = walsh_hadamard_transform(x) / jnp.sqrt(x.size)", expect='R-SIB.rotation')
+m('c18-inverse-scale', 'C18', 'break', WH, ISR, "w = walsh_hadamard_transform(x) * rademacher / jnp.sqrt(x.size)",
+  "w = walsh_hadamard_transform(x) * rademacher / x.size", expect='R-SIB.rotation')
+m('c18-inverse-no-crop', 'C18', 'break', WH, ISR, "y_flat = w.take(jnp.arange(original_size))", "y_flat = w", expect='R-SIB.rotation')
+m('c18-pad-front', 'C18', 'break', WH, SR, "w = jnp.pad(x_flat, (0, d - x.size))", "w = jnp.pad(x_flat, (d - x.size, 0))",
+  expect='R-SIB.rotation')
+m('c18-pow2-floor', 'C18', 'break', WH, SR, "d = 2 ** math.ceil(math.log2(x_flat.size))", "d = 2 ** math.floor(math.log2(x_flat.size))",
+  expect='R-SIB.rotation')
+m('c18-tree-keys-reversed', 'C18', 'break', WH, 'inverse_structured_rotation_pytree',
+  "rngs = jax.random.split(rng, len(leaves))", "rngs = jax.random.split(rng, len(leaves))[::-1]", expect='R-SIB.rotation')
+m('c18-tree-same-key', 'C18', 'break', WH, 'structured_rotation_pytree', "leaf, shape = structured_rotation(l, r)",
+  "leaf, shape = structured_rotation(l, rng)", expect='R-')
+m('c18-tree-split-extra', 'C18', 'break', WH, 'inverse_structured_rotation_pytree', "rngs = jax.random.split(rng, len(leaves))",
+  "rngs = jax.random.split(rng, len(leaves) + 1)", expect='R-SIB.rotation')
+m('c18-twin-mul-rsqrt', 'C18', 'neutral', WH, SR,
+  "return (walsh_hadamard_transform(w * rademacher) / jnp.sqrt(d), jnp.array(x.shape))",
+  "return (walsh_hadamard_transform(w * rademacher) * (1 / jnp.sqrt(d)), jnp.array(x.shape))")
+m('c18-twin-sign-order', 'C18', 'neutral', WH, ISR, "w = walsh_hadamard_transform(x) * rademacher / jnp.sqrt(x.size)",
+  "w = rademacher * walsh_hadamard_transform(x) / jnp.sqrt(x.size)")
+
 _E[:] = [e for e in _E if e is not None]
